@@ -25,12 +25,13 @@ def main():
             rc, so, se = p.returncode, p.stdout, p.stderr
         except subprocess.TimeoutExpired:
             rc, so, se = 124, b'', b'timeout'
-        tripped = 0
+        tripped = 0; run.bursts = 0
         if log and os.path.exists(log):
             for line in open(log):
                 if line.startswith(fault['op'] + ' '):
                     r = int(line.rsplit('->', 1)[1]); n = int(line.split()[2])
                     if r < 0 or (fault['kind'] == 'short' and 0 < r < n): tripped = 1
+                    if fault['kind'] == 'burst' and 0 < r < n: run.bursts += 1
         return rc, so, se, tripped
     def run_piped(args, data, cuts):
         """the input arrives on standard input through a pipe, written in bursts cut at the given offsets
@@ -75,7 +76,7 @@ def main():
                 return 0 if (sc.get('preexist') and open(path, 'rb').read() == OLD) else 1
             ev.update({'what': what, 'size': len(content), 'fault': fault or {'op': 'none', 'k': 0, 'kind': 'none'},
                        'exit_enc': rc_e, 'stderr_enc': 1 if se_e else 0, 'enc_exists': own_output(enc),
-                       'enc_size': os.path.getsize(enc) if os.path.exists(enc) else -1, 'tripped': trip_e})
+                       'enc_size': os.path.getsize(enc) if os.path.exists(enc) else -1, 'tripped': trip_e, 'bursts': getattr(run, 'bursts', 0) if what == 'fault_enc' else 0})
             if what != 'fault_enc' or (rc_e == 0 and own_output(enc)):
                 if own_output(enc):
                     data = bytearray(open(enc, 'rb').read())
@@ -91,7 +92,7 @@ def main():
                 else: rc_d, so, se_d, trip_d = run([CRYPT, '-d'] + dpw + ['-o', dec, enc], fault if what == 'fault_dec' else None)
                 ev.update({'exit_dec': rc_d, 'stderr_dec': 1 if se_d else 0, 'dec_exists': own_output(dec),
                            'same': 1 if os.path.exists(dec) and open(dec, 'rb').read() == content else 0})
-                if what == 'fault_dec': ev['tripped'] = trip_d
+                if what == 'fault_dec': ev['tripped'] = trip_d; ev['bursts'] = getattr(run, 'bursts', 0)
             else:
                 ev.update({'exit_dec': -1, 'stderr_dec': 0, 'dec_exists': 0, 'same': 0})
         elif kind == 'genkey':
